@@ -27,7 +27,8 @@ META = {
         "concrete list."
         " Also: SecFinder takes over the SecUnpacker's flags, find_sec and construct_tracts walk the unpacked list unfiltered, both unpackers derive found_through from thru_rightmost alone."
         ' Round 7: no de-duplication idiom (list(dict.fromkeys(..)), sorted(set(..))) in the parse path; no Twp/Rge pattern fires inside a section list followed by an E/W aliquot; result caches restore everything a miss sets.'
-        " Round 8: no in-place sort / reverse of another object's list; every emitted section gives a valid TRS; 'thru.' / 'through.' are range words."),
+        " Round 8: no in-place sort / reverse of another object's list; every emitted section gives a valid TRS; 'thru.' / 'through.' are range words."
+        " Round 10: a loop that walks a list match from the right never reads, by value, a capture that only some repetitions of the pattern set (Python keeps the text of an earlier repetition); the span of the group or a re-search of the rightmost element is required."),
     'families': ['RX-LANG', 'RX-GROUPS', 'RANGE', 'SIB', 'PAIR', 'ROUTE', 'FORWARD', 'DEADPARAM', 'SIB-DEFAULTS'],
 }
 
@@ -109,6 +110,9 @@ def check(ctx):
     ctx.attempt(common.dedup_idioms, [f for f in ctx.repo.funcs.values() if f.module.name.endswith(
         ('plssdesc.plss_parse', 'unpack.unpackers', 'tract.tract_parse'))])
     ctx.attempt(_sibling_through)
+    ctx.attempt(common.stale_captures, [f for f in ctx.repo.funcs.values() if f.module.name.endswith(('unpack.unpackers', 'plssdesc.plss_parse', 'plssdesc.plss_preprocess', 'tract.tract_parse'))],
+                # which numbers a list denotes does not depend on the word 'Lot' / plural 's' / an acreage (C06 reads those)
+                skip_groups=('word_lot_rightmost', 'plural_rightmost', 'acreage_notfirst'))
     ctx.attempt(_siblings_and_resets)
     from .c06 import ilots_after_l          # 'integer lot numbers' of the statement
     ctx.attempt(ilots_after_l)
